@@ -9,6 +9,7 @@ from .mainloop import MainLoop
 class C09(Check):
     pid = 'C09'
     validate = True
+    fork_logging = True       # DEBUG logging on/off is a symbolic input of every path
     anchors = [('src/fast_ticc/main_loop.py', 'fit_stacked_data'), ('src/fast_ticc/main_loop.py', '_init_task_pool')]
     obligations = ['every_phase_sees_the_users_hyperparameters', 'rounds_between_one_and_limit', 'phase_order_and_dataflow', 'stops_iff_two_consecutive_rounds_agree',
                    'returns_last_round', 'metrics_on_returned_state', 'pool_created_once_and_released',
@@ -40,6 +41,8 @@ class C09(Check):
         q = tier == 'quick'
         return [Config('loop', self.loop, {'P': 2 if q else 3, 'K': 2, 'limmax': 3 if q else 5}, split=4,
                        witness_every=3),
+                Config('loop_after_failed_run', self.loop, {'P': 2, 'K': 2, 'limmax': 2 if q else 3, 'after_failure': True},
+                       split=4, witness_every=7),
                 Config('bad_limit', self.bad_limit, {}),
                 Config('with_repopulation', self.with_repopulation, {'limmax': 3}, split=3)]
 
@@ -95,11 +98,27 @@ class C09(Check):
                       a.iteration_limit == lim]
         c.prove('every_phase_sees_the_users_hyperparameters', conj(f))
 
-    def loop(self, c, P, K, limmax):
+    def loop(self, c, P, K, limmax, after_failure=False):
         Rp = self.R
         lim = c.int('limit', 1, limmax)
         data = np.zeros((P, 1))
         args = states.user_args(Rp, K, limit=lim)
+        if after_failure:
+            # call history: an earlier run in the same process died inside the loop (a fault in the
+            # statistics phase of its second round, after one complete round); whatever it left
+            # behind must not steer this run
+            class Died(Exception):
+                pass
+
+            def fault(rnd, phase):
+                return Died('earlier run dies here') if (rnd == 1 and phase == 'statistics') else None
+            ml0 = MainLoop(Rp, c, K, 1, modes={'initial': 'summary'}, fault=fault)
+            try:
+                with ml0:
+                    Rp.main_loop.fit_stacked_data(states.user_args(Rp, K, limit=3), np.zeros((P, 1)))
+            except Died:
+                pass
+            c.notes['after_failed_run'] = True
         ml = MainLoop(Rp, c, K, 1, modes={'initial': 'summary'})
         with ml:
             ok, res = guarded(c, 'rounds_between_one_and_limit', Rp.main_loop.fit_stacked_data, args, data)
